@@ -8,7 +8,7 @@ for D in "$@"; do
   git -C "$W" reset -q --hard HEAD ; git -C "$W" clean -fdq -e target
   R="$D/confirm.txt"; : > "$R"
   if git -C "$W" apply --3way "$D/patch.diff" >/dev/null 2>&1 || git -C "$W" apply "$D/patch.diff" >/dev/null 2>&1; then echo "applies=yes" >> "$R"; else echo "applies=no" >> "$R"; echo "$D applies=no"; continue; fi
-  git -C "$W" diff > "$D/patch.rebased.diff"
+  git -C "$W" diff HEAD > "$D/patch.rebased.diff"
   (cd "$W" && timeout 1500 cargo test --workspace --offline </dev/null > "$D/test.log" 2>&1); trc=$?
   fails=$(grep -cE "^test .* FAILED|panicked at|^error(\[|:)" "$D/test.log")
   echo "tests_rc=$trc fail_lines=$fails" >> "$R"
